@@ -336,6 +336,8 @@ class Log(registering.StoriedRegistrar):
                   each format string odict is are format strings keyed by data field
        .lasts = odict of loggee Data instances of last values keyed by tag
                   each Data instance attribute is data field
+       .stamps = odict of loggee stamps when last logged keyed by tag
+                  used by update action
     """
     Counter = 0  # Logs have their own namespace
     Names = {}
@@ -386,6 +388,7 @@ class Log(registering.StoriedRegistrar):
         self.formats = odict()  # odict of format string odicts keyed by tag
                                 # each entry value is odict of format strings keyed by data field
         self.lasts = odict()  # odict of data instances of last values  keyed by tag
+        self.stamps = odict()  # odict of loggee stamps when last logged keyed by tag
 
         if loggees:
             for tag, loggee in loggees.items():
@@ -855,12 +858,24 @@ class Log(registering.StoriedRegistrar):
         """
         if self.stamp is None: #Always log at least once even if not updated
             self.log()
+            self.saveStamps()
             return
 
-        for loggee in self.loggees.values():
-            if loggee.stamp is not None and loggee.stamp > self.stamp:  #any number is > None
+        for tag, loggee in self.loggees.items():
+            # updated if loggee stamp differs from its stamp when last logged
+            # comparing to .stamp would miss an update made later in the same
+            # time step as the last log since the stamps are then equal
+            if loggee.stamp is not None and loggee.stamp != self.stamps.get(tag):
                 self.log()
+                self.saveStamps()
                 return  #first update triggers log once per cycle
+
+    def saveStamps(self):
+        """
+        Save the current stamps of the loggees in .stamps for use by update
+        """
+        for tag, loggee in self.loggees.items():
+            self.stamps[tag] = loggee.stamp
 
     def change(self):
         """
